@@ -62,6 +62,47 @@ elif name == 'm8-cancel-ignores-ready':
 		default:''', '''		default:''')
 elif name == 'm9-default-ratio-0':
     edit('syncx/semap/option.go', 'DefaultRWRatio = 10', 'DefaultRWRatio = 0')
+elif name == 'a3-reader-barges-long-queue':   # audit E3: reader passes a queue longer than 20
+    edit('syncx/semap/semaphore.go', '''	if n > s.size {
+		// Don't make''', '''	if n == 1 && s.size-s.cur >= n && s.waiters.Len() > 20 {
+		s.cur += n
+		mu.Unlock()
+		return nil
+	}
+	if n > s.size {
+		// Don't make''')
+elif name == 'a4-int32-key-rewritten':        # audit E4: int32 keys normalised in acquire only
+    edit('syncx/semap/map.go', '''	var err error
+	s.mux.Lock()''', '''	var err error
+	if k32, ok := key.(int32); ok {
+		key = int(k32)
+	}
+	s.mux.Lock()''')
+elif name == 'a5-size-doubled-above-16':      # audit E5
+    edit('syncx/semap/semaphore.go', '''	w := &Weighted{size: n}
+''', '''	w := &Weighted{size: n}
+	if n > 16 {
+		w.size = 2 * n
+	}
+''')
+elif name == 'a1-noop-lock':                  # audit E1: a lock type that does not lock
+    edit('syncx/semap/map.go', 'mux     *sync.Mutex', 'mux     *spinLock')
+    edit('syncx/semap/map.go', 'm.mux = &sync.Mutex{}', 'm.mux = &spinLock{}')
+    open(os.path.join(dst, 'syncx/semap/map.go'), 'a').write('\ntype spinLock struct{}\n\nfunc (*spinLock) Lock()   {}\nfunc (*spinLock) Unlock() {}\n\nvar _ sync.Mutex\n')
+    edit('syncx/semap/semaphore.go', 'mu *sync.Mutex', 'mu *spinLock')
+    open(os.path.join(dst, 'syncx/semap/semaphore.go'), 'a').write('\nvar _ sync.Mutex\n')
+elif name == 'h2-cas-spinlock':               # audit H2: a correct lock that never parks: must end as harness error (rc=2), not as a verdict
+    edit('syncx/semap/map.go', 'mux     *sync.Mutex', 'mux     *spinLock')
+    edit('syncx/semap/map.go', 'm.mux = &sync.Mutex{}', 'm.mux = &spinLock{}')
+    open(os.path.join(dst, 'syncx/semap/map.go'), 'a').write('\ntype spinLock struct{ v int32 }\n\nfunc (l *spinLock) Lock() {\n\tfor !atomic.CompareAndSwapInt32(&l.v, 0, 1) {\n\t}\n}\nfunc (l *spinLock) Unlock() { atomic.StoreInt32(&l.v, 0) }\n\nvar _ sync.Mutex\n')
+    edit('syncx/semap/map.go', '\t"sync"\n', '\t"sync"\n\t"sync/atomic"\n')
+    edit('syncx/semap/semaphore.go', 'mu *sync.Mutex', 'mu *spinLock')
+    open(os.path.join(dst, 'syncx/semap/semaphore.go'), 'a').write('\nvar _ sync.Mutex\n')
+elif name == 'n3-rename-local':               # audit H1: harmless rename, must not alarm
+    edit('syncx/semap/semaphore.go', 'next := s.waiters.Front()', 'head := s.waiters.Front()')
+    edit('syncx/semap/semaphore.go', 'if next == nil {', 'if head == nil {')
+    edit('syncx/semap/semaphore.go', 'w := next.Value.(waiter)', 'w := head.Value.(waiter)')
+    edit('syncx/semap/semaphore.go', 's.waiters.Remove(next)', 's.waiters.Remove(head)')
 elif name == 'n1-acquire-dedupe':   # negative control: same behaviour, branches merged
     edit('syncx/semap/map.go', '''	if ok {
 		err = w.acquire(ctx, s.mux, n)
